@@ -109,6 +109,35 @@ def check_structure(idx: Index, rep: Report) -> None:
 
 
 
+
+def _cmp_paths(f):
+    """For every path of a comparison converter: (builder method called for the result, resolved argument texts, resolved
+    positive / negative facts of the path).  The result store is `<val_map>[<op>.results[0]] = <call>`."""
+    from ..paths import enum_paths
+
+    opn, bn, vm = (a.arg for a in f.node.args.args[:3])
+    out = []
+    for pth in enum_paths(f.node):
+        if not pth.feasible():
+            continue
+        for k, e_ in enumerate(pth.effects):
+            if isinstance(e_, ast.Assign) and len(e_.targets) == 1 and unparse(e_.targets[0]) == f"{vm}[{opn}.results[0]]" and isinstance(e_.value, ast.Call):
+                ft = pth.res(e_.value.func, k)
+                args = [pth.res(a_, k) for a_ in e_.value.args]
+                facts = set(pth.nfacts())
+                variants = [(ft, facts)]
+                try:
+                    fe = ast.parse(ft, mode="eval").body
+                except SyntaxError:
+                    fe = None
+                if isinstance(fe, ast.IfExp):
+                    ct = unparse(fe.test)
+                    variants = [(unparse(fe.body), facts | {(ct, True)}), (unparse(fe.orelse), facts | {(ct, False)})]
+                for ft_, fs_ in variants:
+                    out.append((ft_, args, fs_))
+    return opn, bn, vm, out
+
+
 def check(idx: Index, rep: Report, tier: str) -> str:
     r = rep.rule("C23.R1", "every entry of the translation tables agrees with the mnemonic of the dialect operation it is keyed by", floor=45)
     n = 0
@@ -172,10 +201,24 @@ def check(idx: Index, rep: Report, tier: str) -> str:
         else:
             r.fail(inst, Finding("C23.R2", "xdsl.backend.llvm.convert_op._ICMP_PRED_MAP", f"icmp:{key}", f"icmp predicate `{key}` is translated as {unparse(v)}; expected comparator `{CMP[key[-2:]]}` with signed={key[0] == 's'}", f"{CO}:{k.lineno}"))
     f = idx.func(CO, "_convert_icmp")
-    if "target_func = builder.icmp_signed if is_signed else builder.icmp_unsigned" in unparse(f.node) and "target_func(llvm_pred, val_map[op.lhs], val_map[op.rhs])" in unparse(f.node):
-        r.ok(f.fq, f"{f.loc} signedness flag selects icmp_signed / icmp_unsigned; operands in order")
+    opn, bn, vm, cps = _cmp_paths(f)
+    if not cps:
+        raise AnalysisError(f"{f.fq}: store of the comparison result not found")
+    bad_i, unk_i = [], []
+    for ft, args, fs in cps:
+        signed = next((p_ for t_, p_ in fs if re.fullmatch(r"_ICMP_PRED_MAP\[.+\]\[1\]", t_)), None)
+        if ft not in (f"{bn}.icmp_signed", f"{bn}.icmp_unsigned") or signed is None:
+            unk_i.append(f"call of `{ft}` under {sorted(fs)[:3]}")
+        elif (ft == f"{bn}.icmp_signed") != signed:
+            bad_i.append(f"`{ft}` is used when the table's signedness flag is {signed}")
+        elif len(args) != 3 or args[1:] != [f"{vm}[{opn}.lhs]", f"{vm}[{opn}.rhs]"] or not re.fullmatch(r"_ICMP_PRED_MAP\[.+\]\[0\]", args[0]):
+            bad_i.append(f"`{ft}({', '.join(args)})` does not pass the table's comparator and (lhs, rhs) in order")
+    if bad_i:
+        r.fail(f.fq, Finding("C23.R2", f.fq, "icmp-dispatch", "icmp conversion no longer selects the signed / unsigned builder from the table and passes (lhs, rhs) in order: " + bad_i[0], f.loc))
+    elif unk_i:
+        raise AnalysisError(f"{f.fq}: icmp dispatch not understood: {unk_i[0]}")
     else:
-        r.fail(f.fq, Finding("C23.R2", f.fq, "icmp-dispatch", "icmp conversion no longer selects the signed / unsigned builder from the table and passes (lhs, rhs) in order", f.loc))
+        r.ok(f.fq, f"{f.loc} signedness flag selects icmp_signed / icmp_unsigned; operands in order")
     g = idx.func(CO, "_convert_fcmp")
     gt = unparse(g.node)
     mod_assigns = idx.module(CO).assigns
@@ -204,10 +247,28 @@ def check(idx: Index, rep: Report, tier: str) -> str:
         else:
             r.fail(inst, Finding("C23.R2", f"xdsl.backend.llvm.convert_op.{fcmp_tables[0]}", f"fcmp:{key}", f"fcmp predicate `{key}` is translated as {unparse(v)}; expected {want}: the compiled comparison differs from the source predicate on NaN (ordered vs unordered) or on the relation", f"{CO}:{k.lineno}"))
     if not tuple_table:
-        if "is_ordered = pred[0] == 'o'" in gt and "key = pred[1:]" in gt and "fn = builder.fcmp_ordered if is_ordered else builder.fcmp_unordered" in gt and "fn(cmpop, val_map[op.lhs], val_map[op.rhs])" in gt:
-            r.ok(g.fq, f"{g.loc} ordered iff the mnemonic starts with 'o'; comparator from the suffix; operands in order")
+        opn, bn, vm, cps = _cmp_paths(g)
+        if not cps:
+            raise AnalysisError(f"{g.fq}: store of the comparison result not found")
+        bad_f, unk_f = [], []
+        for ft, args, fs in cps:
+            ordered = next((p_ for t_, p_ in fs if re.fullmatch(r".+\.value\[0\] == 'o'", t_)), None)
+            if ordered is None:
+                ordered = next((not p_ for t_, p_ in fs if re.fullmatch(r".+\.value\[0\] (== 'u'|!= 'o')", t_)), None)
+            if ft not in (f"{bn}.fcmp_ordered", f"{bn}.fcmp_unordered") or ordered is None:
+                unk_f.append(f"call of `{ft}` under {sorted(fs)[:3]}")
+            elif (ft == f"{bn}.fcmp_ordered") != ordered:
+                bad_f.append(f"`{ft}` is used when the mnemonic {'starts' if ordered else 'does not start'} with 'o'")
+            elif len(args) != 3 or args[1:] != [f"{vm}[{opn}.lhs]", f"{vm}[{opn}.rhs]"]:
+                bad_f.append(f"`{ft}({', '.join(args)})` does not pass (lhs, rhs) in order")
+            elif not re.fullmatch(rf"{re.escape(fcmp_tables[0])}\.get\((.+)\.value\[1:\], \1\.value\)", args[0]):
+                unk_f.append(f"comparator argument `{args[0]}`")
+        if bad_f:
+            r.fail(g.fq, Finding("C23.R2", g.fq, "fcmp-dispatch", "fcmp conversion no longer derives orderedness from the first letter and the comparator from the suffix: " + bad_f[0], g.loc))
+        elif unk_f:
+            raise AnalysisError(f"{g.fq}: fcmp dispatch not understood: {unk_f[0]}")
         else:
-            r.fail(g.fq, Finding("C23.R2", g.fq, "fcmp-dispatch", "fcmp conversion no longer derives orderedness from the first letter and the comparator from the suffix", g.loc))
+            r.ok(g.fq, f"{g.loc} ordered iff the mnemonic starts with 'o'; comparator from the suffix; operands in order")
     else:
         if "fcmp_ordered" in gt and "fcmp_unordered" in gt and "val_map[op.lhs], val_map[op.rhs]" in gt:
             r.ok(g.fq, f"{g.loc} table-driven ordered / unordered selection")
